@@ -228,8 +228,10 @@ def keys(ctx):
     for c, key in _sort_key(fi, None):
       if isinstance(key, ast.Lambda) and len(key.args.args) == 1:
         p = key.args.args[0].arg
-        body = norm_text(key.body).replace(p + '.', 'N.')
-        if body == expect:
+        # the required components lead the key; further components only break ties among notes equal in them
+        comps = [norm_text(e).replace(p + '.', 'N.') for e in (key.body.elts if isinstance(key.body, ast.Tuple) else [key.body])]
+        wanted = [norm_text(e) for e in (U.E(expect).elts if isinstance(U.E(expect), ast.Tuple) else [U.E(expect)])]
+        if comps[:len(wanted)] == wanted:
           found = True
           ctx.ob('KEYS/sort-key', fi, c, True, 'sorted by %s' % doc, construct='%s sort key' % fi.qualname)
     if not found:
